@@ -261,6 +261,92 @@ theorem range_overlong (lim : Nat) (pre d1 d2 : List Char) (data : List α)
     · rw [if_neg hd, pyInt_digits ⟨hd, h1⟩ (by omega)]
       simp only [if_neg hne2, pyInt_too_long ⟨hne2, h2⟩ hl2, Option.map_none]
 
+/-! ### the Content-Range text is unambiguous (client-side reading) -/
+
+/-- a digit string followed by a non-digit separator splits uniquely -/
+theorem digits_sep_unique (sep : Char) (hsep : sep.isDigit = false) :
+    ∀ (a b x y : List Char), (∀ c ∈ a, c.isDigit = true) → (∀ c ∈ b, c.isDigit = true) →
+      a ++ sep :: x = b ++ sep :: y → a = b ∧ x = y
+  | [], [], x, y, _, _, h => by simpa using h
+  | [], d :: b, x, y, _, hb, h => by
+      simp only [List.nil_append, List.cons_append, List.cons.injEq] at h
+      have := hb d (by simp); rw [← h.1, hsep] at this; exact absurd this (by decide)
+  | c :: a, [], x, y, ha, _, h => by
+      simp only [List.nil_append, List.cons_append, List.cons.injEq] at h
+      have := ha c (by simp); rw [h.1, hsep] at this; exact absurd this (by decide)
+  | c :: a, d :: b, x, y, ha, hb, h => by
+      simp only [List.cons_append, List.cons.injEq] at h
+      obtain ⟨hab, hxy⟩ := digits_sep_unique sep hsep a b x y
+        (fun c hc => ha c (by simp [hc])) (fun c hc => hb c (by simp [hc])) h.2
+      exact ⟨by rw [h.1, hab], hxy⟩
+
+theorem natRepr_injective {a b : Nat} (h : natRepr a = natRepr b) : a = b := by
+  rw [← (natRepr_isDigits a).2, ← (natRepr_isDigits b).2, h]
+
+/-- **the Content-Range text names exactly one slice and one length**: two 206
+headers are equal only when first, last and full length are all equal, so a
+client reading `bytes s-e/len` back recovers exactly what the server meant. -/
+theorem contentRange_unambiguous (s e len s' e' len' : Nat)
+    (h : crText s e len = crText s' e' len') : s = s' ∧ e = e' ∧ len = len' := by
+  simp only [crText, List.cons_append, List.nil_append, List.cons.injEq, true_and,
+    List.append_assoc] at h
+  obtain ⟨hs, h⟩ := digits_sep_unique '-' (by decide) _ _ _ _
+    (natRepr_isDigits s).1.2 (natRepr_isDigits s').1.2 h
+  obtain ⟨he, hl⟩ := digits_sep_unique '/' (by decide) _ _ _ _
+    (natRepr_isDigits e).1.2 (natRepr_isDigits e').1.2 h
+  exact ⟨natRepr_injective hs, natRepr_injective he, natRepr_injective hl⟩
+
+/-- the 416 text cannot be confused with a 206 text -/
+theorem contentRange_unsat_distinct (s e len len' : Nat) : crText s e len ≠ crUnsatisfied len' := by
+  intro h
+  obtain ⟨hne, hdig⟩ := (natRepr_isDigits s).1
+  cases hs : natRepr s with
+  | nil => exact hne hs
+  | cons c cs =>
+    have hc := hdig c (by rw [hs]; simp)
+    simp only [crText, crUnsatisfied, hs, List.cons_append, List.nil_append, List.cons.injEq, true_and] at h
+    rw [h.1] at hc
+    exact absurd hc (by decide)
+
+
+/-- **what a client reads back is what was served**: if either consumer answers
+206 and its `Content-Range` reads as `bytes s-e/n` for *any* numbers `s e n`, then
+`n` is the full length, `s ≤ e < n`, and the body is exactly `data[s..e]`. -/
+theorem range_206_reads_back (lim : Nat) (hdr : Option (List Char)) (data : List α) (s e n : Nat) :
+    ((segmentResponse lim hdr data).status = 206 →
+      (segmentResponse lim hdr data).contentRange = some (crText s e n) →
+      n = data.length ∧ s ≤ e ∧ e < n ∧ (segmentResponse lim hdr data).body = (data.drop s).take (e - s + 1)) ∧
+    ((onDemandResponse lim hdr data).status = 206 →
+      (onDemandResponse lim hdr data).contentRange = some (crText s e n) →
+      n = data.length ∧ s ≤ e ∧ e < n ∧ (onDemandResponse lim hdr data).body = (data.drop s).take (e - s + 1)) := by
+  obtain ⟨h1, h2⟩ := range_206_exact lim hdr data
+  constructor
+  · intro hst hcr
+    obtain ⟨s', e', hse, hlen, hb, _, hc⟩ := h1 hst
+    rw [hc, Option.some.injEq] at hcr
+    obtain ⟨rfl, rfl, rfl⟩ := contentRange_unambiguous _ _ _ _ _ _ hcr
+    exact ⟨rfl, hse, hlen, hb⟩
+  · intro hst hcr
+    obtain ⟨s', e', hse, hlen, hb, _, hc⟩ := h2 hst
+    rw [hc, Option.some.injEq] at hcr
+    obtain ⟨rfl, rfl, rfl⟩ := contentRange_unambiguous _ _ _ _ _ _ hcr
+    exact ⟨rfl, hse, hlen, hb⟩
+
+/-- a 416 answer's `Content-Range` never reads as a satisfied range -/
+theorem range_416_not_a_slice (lim : Nat) (hdr : Option (List Char)) (data : List α) (s e n : Nat) :
+    ((segmentResponse lim hdr data).status = 416 →
+      (segmentResponse lim hdr data).contentRange ≠ some (crText s e n)) ∧
+    ((onDemandResponse lim hdr data).status = 416 →
+      (onDemandResponse lim hdr data).contentRange ≠ some (crText s e n)) := by
+  obtain ⟨h1, h2⟩ := range_416_exact lim hdr data
+  constructor
+  · intro hst hcr; rw [h1 hst] at hcr
+    simp only [unsatResp, Option.some.injEq] at hcr
+    exact contentRange_unsat_distinct s e n _ hcr.symm
+  · intro hst hcr; rw [h2 hst] at hcr
+    simp only [unsatResp, Option.some.injEq] at hcr
+    exact contentRange_unsat_distinct s e n _ hcr.symm
+
 /-! ### non-vacuity, the excluded point, and the D4 witnesses on the unrepaired logic -/
 
 /-- ten bytes `0..9` -/
@@ -274,6 +360,11 @@ example : (Spec.firstLast 2 4).Valid := by show 2 ≤ 4; decide
 example : segmentResponse 4300 (some (['B', 'y', 't', 'e', 's', '='] ++ ['0', '2'] ++ '-' :: ['4'])) exData
     = { status := 206, body := [2, 3, 4],
         contentRange := some ['b', 'y', 't', 'e', 's', ' ', '2', '-', '4', '/', '1', '0'] } := by decide
+
+-- `range_206_reads_back` at a concrete instance: both hypotheses hold for `Bytes=02-4`
+example : (segmentResponse 4300 (some (['B', 'y', 't', 'e', 's', '='] ++ ['0', '2'] ++ '-' :: ['4'])) exData).status = 206 ∧
+    (segmentResponse 4300 (some (['B', 'y', 't', 'e', 's', '='] ++ ['0', '2'] ++ '-' :: ['4'])) exData).contentRange
+      = some (crText 2 4 10) := by decide
 
 -- clamping of last-byte-pos, suffix longer than the resource, unsatisfiable first-byte-pos
 example : segmentResponse 4300 (some (bytesEq ++ ['5', '-', '9', '9'])) exData
